@@ -328,16 +328,10 @@ def _recognise_postfix(tags, guard, gop, body, params, table):
         # a following comma must wrap it, not absorb / extend it
 
         def not_final(ps):
+            from .summary import facts_of
             for _, pol, c in ps.conds:
-                parts = [(c, pol)]
-                if isinstance(c, tuple) and c[0] == "boolop" and c[1] == "And" \
-                        and pol:
-                    parts = [(x, True) for x in c[2]]
-                for x, p_ in parts:
-                    while isinstance(x, tuple) and x[0] == "unop" and \
-                            x[1] == "Not":
-                        x, p_ = x[2], not p_
-                    if isinstance(x, tuple) and x[0] == "call" and \
+                for x, p_ in facts_of(c, pol):
+                    if isinstance(x, tuple) and x and x[0] == "call" and \
                             x[1] == "isinstance" and x[2][0] == LEFT and \
                             "FinalizedContainer" in str(x[2][1]) and not p_:
                         return True
